@@ -7,7 +7,7 @@ use crate::{CustomSection, Module, RawCustomSection};
 use gimli::*;
 
 use self::dwarf::{AddressSearchPreference, ConvertContext, DEAD_CODE};
-use self::expression::{CodeAddressConverter, CodeAddressGenerator};
+use self::expression::{CodeAddress, CodeAddressConverter, CodeAddressGenerator};
 use self::units::DebuggingInformationCursor;
 
 /// Whether `name` is the name of a DWARF section. Those are read into
@@ -79,7 +79,17 @@ impl Emit for ModuleDebugData {
         let convert_address = |address, search_preference| -> Option<write::Address> {
             let address = address as usize;
             let code = address_generator.find_address(address, search_preference);
-            let address = address_converter.find_address(code);
+            // The instruction a function's first byte is attached to may not be
+            // emitted (a leading `nop`, say), while the function itself is.
+            let by_function = match code {
+                CodeAddress::InstrEdge { .. } => {
+                    Some(address_generator.find_function_address(address, search_preference))
+                }
+                _ => None,
+            };
+            let address = address_converter
+                .find_address(code)
+                .or_else(|| by_function.and_then(|code| address_converter.find_address(code)));
 
             address
                 .map(|x| (x - cx.code_transform.code_section_start) as u64)
